@@ -21,7 +21,8 @@ CONSTANTS KeySets,    \* set of key configurations: subsets of {"HS","RS","ES"} 
           Algs, Signers, Tampers, Exps, Nbfs, TokAuds, TokIsss, Kids,
           XHdrs, AuthzHdrs, Schemes,
           TenantTables, TenantHdrs, SignedFor,   \* C10 tenants
-          ClaimSets, HostLabels, EpHeaders       \* C10 endpoints
+          ClaimSets, HostLabels, EpHeaders,      \* C10 endpoints
+          PathEps                                \* endpoint named by the URL path ("" = HTTP route)
 
 VARIABLES conf, tok, hdr, ten, tgt
 vars == <<conf, tok, hdr, ten, tgt>>
@@ -32,7 +33,7 @@ Init ==
               aud : TokAuds, iss : TokIsss, kid : Kids, eps : ClaimSets]
   /\ hdr \in [x : XHdrs, authz : AuthzHdrs, scheme : Schemes]
   /\ ten \in [table : TenantTables, hdr : TenantHdrs, signedFor : SignedFor]
-  /\ tgt \in [host : HostLabels, header : EpHeaders, path : {""}]
+  /\ tgt \in [host : HostLabels, header : EpHeaders, path : PathEps]
   \* the key-id only matters with a JWKS; tenants only on the upstream port
   /\ ("JWKS" \notin conf.keys => tok.kid = "known")
 
@@ -96,7 +97,7 @@ Valid ==
 
 AcceptIffValid == Accept <=> Valid
 NoneNeverAccepted == tok.alg = "none" => ~Accept
-UnsignedNeverAccepted == tok.signer \in {"unsigned", "confusion", "other"} => ~Accept
+UnsignedNeverAccepted == tok.signer \in {"unsigned", "confusion", "other", "empty"} => ~Accept
 ExpiredNeverAccepted == (tok.exp = "past" \/ tok.nbf = "future") => ~Accept
 XPikoTakesPrecedence == (hdr.x = "bad" => ~Accept) /\ (hdr.x = "good" /\ hdr.authz = "bad" /\ hdr.scheme = "Bearer" /\ VerifyOK(conf, tok) => Accept)
 
@@ -112,8 +113,8 @@ Permitted(claims, ep) == claims = {} \/ ep \in claims
 \* the proxy serves the request on endpoint Routed(tgt) iff the token is
 \* accepted and permits exactly that endpoint
 ProxyServes(ep) == Accept /\ Routed(tgt) = ep /\ ep # "" /\ Permitted(tok.eps, ep)
-CheckedIsRouted == \A ep \in HostLabels \cup EpHeaders : ProxyServes(ep) => Permitted(tok.eps, Routed(tgt))
-OnlyPermitted == \A ep \in HostLabels \cup EpHeaders : ProxyServes(ep) => (tok.eps = {} \/ ep \in tok.eps)
+CheckedIsRouted == \A ep \in HostLabels \cup EpHeaders \cup PathEps : ProxyServes(ep) => Permitted(tok.eps, Routed(tgt))
+OnlyPermitted == \A ep \in HostLabels \cup EpHeaders \cup PathEps : ProxyServes(ep) => (tok.eps = {} \/ ep \in tok.eps)
 
 (* C10: tenants (upstream port) *)
 \* MultiTenantVerifier.Verify(token, tenantID)
